@@ -685,57 +685,46 @@ func (w *World) handler(c *Conn, withSignal bool) func(ctx context.Context, sd *
 		if sd != nil {
 			cancelCh = sd.cancel
 		}
+		timerFired, gotSignal := false, false
 		for {
+			// Wait for anything to happen, then let everything that happens at the same simulated instant
+			// settle (the park below returns only after the scheduler saw quiescence) and act on the
+			// conditions in a fixed order: shutdown, cancel signal, own timer. A plain select would pick
+			// at random among cases that are ready together, which a replay could not reproduce.
 			select {
 			case <-timer:
-				timer = nil
-				if ctx.Err() != nil {
-					continue // shutting down: take the ctx.Done branch, whatever select happened to pick
-				}
-				mode := in.Mode
-				if mode == "panic" || mode == "badout" {
-					simrt.EnvPoint("env:misbehave", false, 0)
-					if c.ending() {
-						w.Fired("misbehaviour_suppressed_session_over")
-						w.Log(Event{Kind: EvCtxDone, Src: c.d.Src, Dep: c.d.N})
-						return "cancelled", CancelledOut{Msg: "terminated"}
-					}
-				}
-				switch mode {
-				case "err":
-					w.Fired("plugin_error_output")
-					return end("error", ErrorOut{Reason: "scripted error a=" + fmt.Sprint(in.A)})
-				case "alt":
-					w.Fired("plugin_alt_output")
-					return end("alt", AltOut{A: in.A})
-				case "crash":
-					w.Fired("plugin_crash_before_result")
-					simrt.EnvPoint("env:crash", false, 0)
-					c.Kill("scripted crash")
-					w.Log(Event{Kind: EvExecEnd, Src: c.d.Src, Dep: c.d.N, Data: map[string]any{"output": "", "crash": true}})
-					return "error", ErrorOut{Reason: "crashed"}
-				case "panic":
-					w.Fired("plugin_panic")
-					w.Log(Event{Kind: EvExecEnd, Src: c.d.Src, Dep: c.d.N, Data: map[string]any{"output": "", "panic": true}})
-					panic("scripted plugin panic")
-				case "badout":
-					w.Fired("plugin_bad_output")
-					w.Log(Event{Kind: EvExecEnd, Src: c.d.Src, Dep: c.d.N, Data: map[string]any{"output": "", "badout": true}})
-					return "success", AltOut{A: 1}
-				default:
-					return end("success", Compute(c.d.Src, in))
-				}
+				timer, timerFired = nil, true
 			case <-cancelCh:
-				cancelCh = nil
-				if ctx.Err() != nil {
-					continue
+				gotSignal = true
+			case <-ctx.Done():
+			}
+			simrt.EnvPoint("env:plugin-wake", false, 0)
+			select {
+			case <-cancelCh:
+				gotSignal = true
+			default:
+			}
+			if timer != nil {
+				select {
+				case <-timer:
+					timer, timerFired = nil, true
+				default:
 				}
-				simrt.EnvPoint("env:cancel-signal", false, 0)
+			}
+			if gotSignal {
+				// the signal did arrive, whatever else is going on
 				w.Log(Event{Kind: EvCancelSignal, Src: c.d.Src, Dep: c.d.N})
+			}
+			if ctx.Err() != nil {
+				// the container is being shut down
+				w.Log(Event{Kind: EvCtxDone, Src: c.d.Src, Dep: c.d.N})
+				return "cancelled", CancelledOut{Msg: "terminated"}
+			}
+			if gotSignal {
+				gotSignal = false
 				switch in.OnCancel {
 				case "ignore":
 					w.Fired("plugin_ignores_cancel")
-					continue
 				case "crash":
 					w.Fired("plugin_crash_on_cancel")
 					c.Kill("scripted crash on cancel")
@@ -744,10 +733,39 @@ func (w *World) handler(c *Conn, withSignal bool) func(ctx context.Context, sd *
 				default:
 					return end("cancelled", CancelledOut{Msg: "cancelled by signal"})
 				}
-			case <-ctx.Done():
-				// the container is being shut down
+			}
+			if !timerFired {
+				continue
+			}
+			timerFired = false
+			mode := in.Mode
+			if (mode == "panic" || mode == "badout") && c.ending() {
+				w.Fired("misbehaviour_suppressed_session_over")
 				w.Log(Event{Kind: EvCtxDone, Src: c.d.Src, Dep: c.d.N})
 				return "cancelled", CancelledOut{Msg: "terminated"}
+			}
+			switch mode {
+			case "err":
+				w.Fired("plugin_error_output")
+				return end("error", ErrorOut{Reason: "scripted error a=" + fmt.Sprint(in.A)})
+			case "alt":
+				w.Fired("plugin_alt_output")
+				return end("alt", AltOut{A: in.A})
+			case "crash":
+				w.Fired("plugin_crash_before_result")
+				c.Kill("scripted crash")
+				w.Log(Event{Kind: EvExecEnd, Src: c.d.Src, Dep: c.d.N, Data: map[string]any{"output": "", "crash": true}})
+				return "error", ErrorOut{Reason: "crashed"}
+			case "panic":
+				w.Fired("plugin_panic")
+				w.Log(Event{Kind: EvExecEnd, Src: c.d.Src, Dep: c.d.N, Data: map[string]any{"output": "", "panic": true}})
+				panic("scripted plugin panic")
+			case "badout":
+				w.Fired("plugin_bad_output")
+				w.Log(Event{Kind: EvExecEnd, Src: c.d.Src, Dep: c.d.N, Data: map[string]any{"output": "", "badout": true}})
+				return "success", AltOut{A: 1}
+			default:
+				return end("success", Compute(c.d.Src, in))
 			}
 		}
 	}
